@@ -84,7 +84,9 @@ Inductive kind :=
 | KFunc | KGenFunc | KVar
 | KType | KIface (ms : list tmethod) | KGenType | KConstraint
 | KConstId                      (* typed constant, untyped boolean or complex: bound by identifier *)
-| KUInt (z : Z) | KUFloat (n d : Z) | KUString (b : str)
+| KUInt (z : Z)                 (* untyped integer constant: default type int *)
+| KURune (z : Z)                (* untyped RUNE constant: same values, default type rune (int32) *)
+| KUFloat (n d : Z) | KUString (b : str)
 | KBuiltin.
 
 Inductive akind := AFunc | AVar | AType | AConst.
@@ -170,9 +172,14 @@ Definition is_pow2 (z : Z) : bool := match z with Zpos p => is_pow2_pos p | _ =>
 (* ------------------------------------------------------------------ *)
 (** * Constants *)
 
+(** The untyped kind of a constant is part of what it denotes (it fixes the default type:
+    [x := utf8.RuneError] declares a rune).  A literal carries it in its token: CHAR for a rune
+    constant.  G demands it; the generator (extract.fixConst switches on go/constant's Kind, which
+    has no rune kind) prints every integer-valued constant with token.INT. *)
 Definition const_g (k : kind) (t : tok) (lit : str) : bool :=
   match k with
   | KUInt z => (tok_eqb t TINT || tok_eqb t TCHAR) && oq_eqb (parse_literal t lit) (z, 1)
+  | KURune z => tok_eqb t TCHAR && oq_eqb (parse_literal t lit) (z, 1)
   | KUFloat n d => tok_eqb t TFLOAT && oq_eqb (parse_literal t lit) (n, d)
   | KUString b => tok_eqb t TSTRING && match unquote lit with Some b' => seqb b' b | None => false end
   | _ => false
@@ -181,12 +188,18 @@ Definition const_g (k : kind) (t : tok) (lit : str) : bool :=
 Definition const_y (k : kind) (t : tok) (lit : str) : bool :=
   match k with
   | KUFloat n d => tok_eqb t TFLOAT && oq_eqb (parse_literal t lit) (y_fixconst n d)
+  | KURune z => tok_eqb t TINT && oq_eqb (parse_literal t lit) (z, 1)
   | _ => const_g k t lit
   end.
 
 (** the region of the known finding: untyped float constants whose value is not a dyadic rational *)
 Definition float_region (k : kind) : bool :=
   match k with KUFloat n d => negb (is_pow2 d) | _ => false end.
+
+(** the region of the second finding: untyped rune constants (bound as untyped integers) *)
+Definition rune_region (k : kind) : bool := match k with KURune _ => true | _ => false end.
+
+Definition const_region (k : kind) : bool := float_region k || rune_region k.
 
 (* ------------------------------------------------------------------ *)
 (** * Rows *)
@@ -242,6 +255,7 @@ Definition obj_row_ok (cok : kind -> tok -> str -> bool) (f : file) (tp : tpkg) 
   | KType, FTypeIdent id => repl_ok tp name id
   | KConstId, FSel q id => sel_ok f tp name q id
   | KUInt _, FLit t lit => cok k t lit
+  | KURune _, FLit t lit => cok k t lit
   | KUFloat _ _, FLit t lit => cok k t lit
   | KUString _, FLit t lit => cok k t lit
   | KBuiltin, FIdent id => seqb id (lower_first name) && smem id (f_locals f)
@@ -281,7 +295,10 @@ Definition row_kind (g : group) (r : row) : option kind :=
   end.
 
 Definition row_region (g : group) (r : row) : bool :=
-  match row_kind g r with Some k => float_region k | None => false end.
+  match row_kind g r with Some k => const_region k | None => false end.
+
+Definition row_rune_region (g : group) (r : row) : bool :=
+  match row_kind g r with Some k => rune_region k | None => false end.
 
 (* ------------------------------------------------------------------ *)
 (** * Completeness *)
@@ -410,6 +427,27 @@ Definition bad_row_ids (cok : kind -> tok -> str -> bool) (g : group) : list N :
 Definition check_group (g : group) : bool := rows_ok const_y g && complete g && forwards g.
 
 Definition check_groups (gs : list group) : bool := forallb check_group gs.
+
+(** Cross-platform tables (the files of the other platforms, judged against go/types for their
+    GOOS/GOARCH): the truth is the installed release, the files target an earlier one, and
+    $GOROOT/api is silent about most platforms.  Completeness is therefore demanded up to a
+    regenerated list [drift] of truth objects (coq/gen/BindXDrift_gen.v: declared by the installed
+    source, no api record for the platform, absent from both releases of the table).  Rows and
+    wrappers are decided without exception. *)
+Definition nmem (x : N) (l : list N) : bool := exb (N.eqb x) l.
+
+Definition no_api (t : tobj) : bool := match t_api t with ANone => true | AKnown _ _ => false end.
+
+Definition obj_complete_upto (drift : list N) (g : group) (tp : tpkg) (t : tobj) : bool :=
+  if obj_complete g tp t then true else if no_api t then nmem (t_id t) drift else false.
+
+Definition complete_upto (drift : list N) (g : group) : bool :=
+  negb (g_complete g) || forallb (fun tp => forallb (obj_complete_upto drift g tp) (tp_objs tp)) (g_truth g).
+
+Definition check_xgroup (drift : list N) (g : group) : bool :=
+  rows_ok const_y g && complete_upto drift g && forwards g.
+
+Definition check_xgroups (drift : list N) (gs : list group) : bool := forallb (check_xgroup drift) gs.
 
 (** rows outside the float region denote their object exactly (G) *)
 Definition rows_ok_g_outside (g : group) : bool :=
